@@ -6,7 +6,7 @@ PROP = {
     "n": {"quick": 2400, "thorough": 30000},
     "shards": {"quick": 16, "thorough": 64},
     "level": "proof",
-    "technique": "Coq theorems over the executable model of cast / xmlToMapParser (decision table, relational parametricity of the decoder in the cast flag, NaN/Inf exclusion) + model/implementation correspondence by vm_compute (decoder on real token streams, cast through the verif hook, exhaustive sweep of the NaN/Inf spellings against strconv.ParseFloat) + Go-side oracle on NewMapXml, NewMapXmlSeq and Map.Json",
+    "technique": "go2v translation of func cast from the current xml.go (Gen/Pure_gen.v) proved equal to the model for every package state and argument (GenProofs/PureG.v) + Coq theorems over the executable model of cast / xmlToMapParser (decision table, relational parametricity of the decoder in the cast flag, NaN/Inf exclusion) + model/implementation correspondence by vm_compute (decoder on real token streams, cast through the verif hook, exhaustive sweep of the NaN/Inf spellings against strconv.ParseFloat) + Go-side oracle on NewMapXml, NewMapXmlSeq and Map.Json",
     "design_ref": "DESIGN.md section 6, C14",
     "assumptions": XML_ASSUME + [
         "H1: strconv.ParseFloat returns NaN or an infinity with a nil error exactly for the spellings nan, [+-]inf, [+-]infinity (ASCII case-insensitive; Spec/CastSpec.v special); a Section-style hypothesis of cast_spec / special_never_cast, validated on all 816 signed case variants and on every generated numeral on every run",
@@ -14,5 +14,5 @@ PROP = {
         "the sequence codec (NewMapXmlSeq) is not modelled here (C04): its cast clauses are checked by the Go-side oracle only",
     ],
     "level_text": "Machine-checked theorems over the model of cast and of the Map decoder, for all token lists, option records, leaf texts, tags and ParseFloat oracles: the decision chain equals the declarative table; decoding with the cast flag gives the same structure and keys as without it with every string leaf replaced by the cast of its own text (an equation when no skip function is set); un-cast decoding yields only strings; unless CastNanInf is on no NaN/Inf float64 occurs anywhere in a decoded Map. The model is tied to /repo on every run by correspondence on real token streams and through the verif hook, and the property is evaluated on the implementation (NewMapXml, NewMapXmlSeq, Json) by a Go-side oracle.",
-    "level_note": "Trusted: Coq kernel + vm_compute; encoding/xml tokenizer and strconv as environment (H1/H0 validated, not proved); hand-written model validated by correspondence; NewMapXmlSeq covered by the oracle only; json.Marshal's acceptance is modelled as 'no NaN/Inf float64' (json_ok).",
+    "level_note": "Trusted: Coq kernel + vm_compute; the translator go2v (fragment and stdlib mapping in translator/pure.go); encoding/xml tokenizer and strconv as environment (H1/H0 validated, not proved); hand-written model validated by correspondence; NewMapXmlSeq covered by the oracle only; json.Marshal's acceptance is modelled as 'no NaN/Inf float64' (json_ok).",
 }
